@@ -130,7 +130,15 @@ func (s *Server) filterDNSResponse(dctx *dnsContext) (err error) {
 		} else if res != nil && res.IsFiltered {
 			dctx.result = res
 			dctx.origResp = pctx.Res
-			pctx.Res = s.genDNSFilterMessage(pctx, res)
+
+			// The request path generates these messages under s.serverLock,
+			// see processFilteringBeforeRequest.
+			func() {
+				s.serverLock.RLock()
+				defer s.serverLock.RUnlock()
+
+				pctx.Res = s.genDNSFilterMessage(pctx, res)
+			}()
 
 			log.Debug("dnsforward: matched %q by response: %q", pctx.Req.Question[0].Name, host)
 
